@@ -366,6 +366,22 @@ impl<B> Call<WithBody, B> {
     pub fn into_receive(self) -> Result<Call<RecvResponse, B>, Error> {
         self.do_into_receive()
     }
+
+    /// Proceed to receiving a response without sending the body.
+    ///
+    /// This is for when the server answers an `Expect: 100-continue` request with
+    /// something else than 100: the body must not be sent.
+    pub(crate) fn into_receive_skip_body(self) -> Call<RecvResponse, B> {
+        Call {
+            request: self.request,
+            analyzed: self.analyzed,
+            state: BodyState {
+                phase: Phase::RecvResponse,
+                ..self.state
+            },
+            _ph: PhantomData,
+        }
+    }
 }
 
 fn try_write_prelude<B>(
